@@ -640,7 +640,6 @@ def expand_basis_spec(counts=True):
     parameter leaves the counting to the caller: the contract then says `not counted here`, and `every operator application is counted` is decided where it
     belongs, in factorize_from."""
     c = "1" if counts else "0"
-    has_v = bool(re.search(r"\bVector\b[^;]*\bv\(", f.body))     # the scratch vector of the first try
     return FSpec("expand_basis", "void", [("Fac *", "F"), ("Mat", "V"), ("Index", "seed"), ("Scalar *", "f"), ("Scalar *", "fnorm"), ("Index *", "op_counter")],
                  pre=[("V is the leading block of the basis, f a length-n vector", "V.rows == F->m_n && 0 <= V.cols && V.cols <= F->m_m && VEC_SIZE(f) == F->m_n && F->m_op->n == F->m_n && 0 <= F->m_n && F->m_n <= NMAX"),
                       ("seed of the library form 2*i", "0 <= seed && seed <= 2 * NMAX"),
@@ -663,6 +662,7 @@ def f_expand_basis(report):
         f = copy.copy(f)
         f.params = f.params + ", Index& op_counter"    # uniform C signature; the body never touches it
     c = "1" if counts else "0"
+    has_v = bool(re.search(r"\bVector\b[^;]*\bv\(", f.body))     # the scratch vector of the first try
     t, R = cgen.emit(f, "expand_basis", ret_c="void", self_type="Fac", self_name="F", members=FAC_MEMBERS,
                      param_types={"V": "Mat", "seed": "Index", "f": "Scalar *", "fnorm": "REF", "op_counter": "REF"},
                      extra_rules=[("rng", r"SimpleRandom<Scalar> rng\(([^;]+)\);", r"const Index verif_seed = (\1); __CPROVER_assert(verif_seed >= 0, @Q@SimpleRandom seed is non-negative@Q@);", {"max": 1}),
@@ -707,15 +707,15 @@ def factorize_spec(which):
                            ("only the operator's exception (precondition excludes from_k > k): entered once more than counted",
                             "verif_exc == EXC_user && g_ops - old_ops == (*op_counter) - old_cnt + 1"),
                            ("shapes preserved", FAC_INV[0][1]), ("clock", "g_clock == old_clock")],
-                 frame=["F->m_k", "F->g_valid_k", "F->m_beta", "*op_counter", "g_ops", "F->m_fac_V.cell", "F->m_fac_H.cell", "F->st_fac", "g_clock", "g_accepted"],
+                 frame=["F->m_k", "F->g_valid_k", "F->m_beta", "*op_counter", "g_ops", "F->m_fac_V.cell", "F->m_fac_H.cell", "F->st_fac", "g_clock", "g_accepted", "g_bd_col"],
                  frame_objs=["F->m_fac_f", "F->m_fac_V.colbuf"] + (["F->m_fac_H.colbuf"] if which == "Arnoldi" else []), may_throw=[1, 7],
                  olds=[("Index", "old_ops", "g_ops"), ("Index", "old_cnt", "*op_counter"), ("Index", "old_k", "F->m_k"), ("Index", "old_clock", "g_clock")],
                  real=hdr + ":factorize_from")
 
 
-FACT_OUTER_INV = ("__CPROVER_assigns(i, F->m_beta, *op_counter, g_ops, verif_exc, g_accepted, F->m_fac_V.cell, F->m_fac_H.cell, __CPROVER_object_whole(F->m_fac_f), "
+FACT_OUTER_INV = ("__CPROVER_assigns(i, F->m_beta, *op_counter, g_ops, verif_exc, g_accepted, g_bd_col, F->m_fac_V.cell, F->m_fac_H.cell, __CPROVER_object_whole(F->m_fac_f), "
                   "__CPROVER_object_whole(F->m_fac_V.colbuf), __CPROVER_object_whole(Vf), __CPROVER_object_whole(w)) "
-                  "__CPROVER_loop_invariant(from_k <= i && i <= to_m && verif_exc == 0 && F->m_beta >= (Scalar)0 && "
+                  "__CPROVER_loop_invariant(from_k <= i && i <= to_m && verif_exc == 0 && F->m_beta >= (Scalar)0 && g_bd_col < i && "
                   "old_ops_l + (i - from_k) <= g_ops && g_ops <= old_ops_l + 2 * (i - from_k) && (*op_counter) == old_cnt_l + (g_ops - old_ops_l)) "
                   "__CPROVER_decreases(to_m - i)")
 FACT_INNER_INV = ("__CPROVER_assigns(count, F->m_beta, ortho_err, F->m_fac_H.cell, __CPROVER_object_whole(F->m_fac_f), __CPROVER_object_whole(Vf)%s) "
@@ -735,7 +735,11 @@ def f_factorize_from(which, report):
     # expand_basis is the leading `i` columns of V for the column index i of the loop - asserted at the call site
     extra = [("expand", r"(?:this->)?expand_basis\((\w+),\s*([^,]+),\s*F->m_fac_f,\s*F->m_beta(?:,\s*\(\*op_counter\))?\);",
               r"__CPROVER_assert(\1.cols == %s, @Q@breakdown: the new direction is orthogonalised against all basis columns built so far (V has exactly i columns)@Q@); "
-              r"expand_basis(F, \1, \2, F->m_fac_f, &F->m_beta, op_counter);" % COL, {"max": 1}),
+              r"expand_basis(F, \1, \2, F->m_fac_f, &F->m_beta, op_counter); g_bd_col = %s;" % (COL, COL), {"max": 1}),
+             # C07 / C02 (A V = V H + f e' across a breakdown): the column started from a fresh random direction is NOT coupled to the previous one -
+             # the sub-diagonal entry written for it is the literal zero, never the norm of the new direction
+             ("subdiag", r"F->m_fac_H\((\w+), \1 - 1\) = (?!F->m_fac_H)([^;]+);",
+              r"{ const Scalar verif_sub = (\2); __CPROVER_assert(g_bd_col != \1 || verif_sub == (Scalar)0, @Q@breakdown: H(i, i-1) of a column restarted from a random direction is exactly zero@Q@); F->m_fac_H(\1, \1 - 1) = verif_sub; }", {"min": 1, "max": 1}),
              ("mk", r"F->m_k = to_m;", "F->m_k = to_m; F->g_valid_k = to_m; g_clock++; F->st_fac = g_clock;", {"max": 1})]
     if which == "Arnoldi":
         extra.append(("h-map", r"MapVec h\(&F->m_fac_H\(0, i\), i1\);", "Scalar *h = MAT_COLPTR(&F->m_fac_H, 0, i); __CPROVER_assert(i1 <= F->m_fac_H.rows, @Q@Eigen::Map of a column segment stays inside the column@Q@);", {"max": 1}))
@@ -746,7 +750,7 @@ def f_factorize_from(which, report):
                      maythrow=["OP_perform_op", "expand_basis"], contract=spec.frame_contract(),
                      loop_contracts={0: FACT_OUTER_INV.replace("__CPROVER_object_whole(w))", "__CPROVER_object_whole(w)%s)" % inner_extra),
                                      1: FACT_INNER_INV % inner_extra},
-                     pre_body=" const Index old_ops_l = g_ops; const Index old_cnt_l = (*op_counter);")
+                     pre_body=" const Index old_ops_l = g_ops; const Index old_cnt_l = (*op_counter); g_bd_col = -1;")
     report["%s::factorize_from" % which] = R.fired
     report.setdefault("abstracted_statements", {})["%s::factorize_from" % which] = stm
     return t, spec
@@ -797,6 +801,7 @@ def f_fac_init(report):
 
 DIV_SITE_DEF = r'''
 _Bool g_accepted;      /* ghost: expand_basis returned through its orthogonality acceptance test */
+Index g_bd_col;        /* ghost: column of the current factorize_from() call that was restarted from a random direction (breakdown), -1 if none */
 /* audited floating division site: a zero divisor here is a division by zero on a real input (C13 div.audit) */
 _Bool g_div_zero;      /* ghost: set when an audited division site is reached with a zero divisor */
 #define DIV_SITE(d, what) do { if ((d) == (Scalar)0) g_div_zero = 1; } while (0)
@@ -925,7 +930,7 @@ def restart_spec(gen, retrieve_post):
                            ("operator / decomposition exceptions propagate; counter lags by at most the interrupted application",
                             "(verif_exc == EXC_user ? g_ops == S->m_nmatop + 1 : (S->m_nmatop == g_ops && (verif_exc == EXC_invalid_argument || verif_exc == EXC_runtime_error)))"),
                            ("shapes preserved", SHAPES)],
-                 frame=["S->m_nmatop", "g_ops", "g_clock", "g_accepted", "S->st_ritz", "g_ia", "g_ib", "g_va", "g_vb", "g_shift_lo", "g_shift_n", "g_shifts_applied",
+                 frame=["S->m_nmatop", "g_ops", "g_clock", "g_accepted", "g_bd_col", "S->st_ritz", "g_ia", "g_ib", "g_va", "g_vb", "g_shift_lo", "g_shift_n", "g_shifts_applied",
                         "S->m_fac.m_k", "S->m_fac.g_valid_k", "S->m_fac.m_beta", "S->m_fac.m_fac_V.cell", "S->m_fac.m_fac_H.cell", "S->m_fac.m_fac_H.rows",
                         "S->m_fac.m_fac_H.cols", "S->m_fac.st_fac"],
                  frame_objs=["S->m_ritz_val", "S->m_ritz_est", "S->tag_val", "S->tag_est", "S->m_ritz_vec.coltag", "S->m_fac.m_fac_V.colbuf"] + (["S->m_fac.m_fac_H.colbuf"] if gen else []),
@@ -993,7 +998,7 @@ def compute_spec(gen, sort_post):
                            ("exception type is a documented one and the operator's exception propagates unchanged; counter lags by at most the interrupted application",
                             "(verif_exc == EXC_user ? g_ops == S->m_nmatop + 1 : (S->m_nmatop == g_ops && (verif_exc == EXC_invalid_argument || verif_exc == EXC_runtime_error)))"),
                            ("object keeps consistent shapes (init() can be called again)", SHAPES)],
-                 frame=["S->m_nmatop", "S->m_niter", "S->m_info", "g_ops", "g_clock", "g_accepted", "g_restarts", "g_budget", "g_term", "g_calls", "S->st_ritz", "S->st_conv", "S->cnt_conv",
+                 frame=["S->m_nmatop", "S->m_niter", "S->m_info", "g_ops", "g_clock", "g_accepted", "g_bd_col", "g_restarts", "g_budget", "g_term", "g_calls", "S->st_ritz", "S->st_conv", "S->cnt_conv",
                         "g_ia", "g_ib", "g_va", "g_vb", "g_shift_lo", "g_shift_n", "g_shifts_applied",
                         "S->m_fac.m_k", "S->m_fac.g_valid_k", "S->m_fac.m_beta", "S->m_fac.m_fac_V.cell", "S->m_fac.m_fac_H.cell", "S->m_fac.m_fac_H.rows",
                         "S->m_fac.m_fac_H.cols", "S->m_fac.st_fac", "S->g_backtransformed"],
@@ -1037,7 +1042,7 @@ def f_compute(gen, report, sort_post):
         ("restart", r"(?<![\w>])restart\((\w+), selection\);", r"g_budget += 2 * (S->m_ncv - (\1)); g_term += 2 * S->m_ncv; g_calls++; restart(S, \1, selection); g_restarts++;", {"max": 1}),
         ("sort", r"(?<![\w>])sort_ritzpair\(sorting\);", "sort_ritzpair(S, sorting);", {"max": 1}),
     ]
-    inv = ("__CPROVER_assigns(i, nconv, nev_adj, verif_exc, S->m_nmatop, g_ops, g_clock, g_accepted, g_restarts, g_budget, g_term, g_calls, S->st_ritz, S->st_conv, S->cnt_conv, "
+    inv = ("__CPROVER_assigns(i, nconv, nev_adj, verif_exc, S->m_nmatop, g_ops, g_clock, g_accepted, g_bd_col, g_restarts, g_budget, g_term, g_calls, S->st_ritz, S->st_conv, S->cnt_conv, "
            "g_ia, g_ib, g_va, g_vb, g_shift_lo, g_shift_n, g_shifts_applied, S->m_fac.m_k, S->m_fac.g_valid_k, S->m_fac.m_beta, S->m_fac.m_fac_V.cell, "
            "S->m_fac.m_fac_H.cell, S->m_fac.m_fac_H.rows, S->m_fac.m_fac_H.cols, S->m_fac.st_fac, "
            "__CPROVER_object_whole(S->m_fac.m_fac_f), __CPROVER_object_whole(S->m_ritz_conv), __CPROVER_object_whole(S->tag_conv), "
@@ -1147,12 +1152,11 @@ def f_ctor(gen, report, ordinal=0):
                 "S->m_fac.m_op = op; S->m_fac.m_n = op->n; S->m_fac.m_m = S->m_ncv; S->m_fac.m_k = 0; S->m_fac.g_valid_k = 0; "
                 "S->m_info = CompInfo_NotComputed; S->m_ritz_conv = BVEC_NEW(0); S->cnt_conv = 0; /* default-constructed Eigen members are empty */")
     f.inits = ""
+    f, inlined = X.inline_member_calls(f, hdr, cls)      # e.g. range checks factored out into a private helper shared by the constructors
     t, R = cgen.emit(f, "solver_ctor" + (str(ordinal) if ordinal else ""), ret_c="void", self_type="Solver", self_name="S", members=SOLVER_MEMBERS,
                      param_types={"op": "Op *", "Bop": "int"}, pre_body=pre_body, contract=spec.frame_contract())
     t = t.replace("Op * op, int Bop,", "Op *op,").replace("Op * op, int Bop", "Op *op")
-    report["%s::%s#%d" % (cls, cls, ordinal)] = R.fired
-    if R.fired.get("throw", 0) != 2:
-        raise X.ExtractionBreak("%s constructor: expected two range checks that throw" % cls)
+    report["%s::%s#%d" % (cls, cls, ordinal)] = dict(R.fired, inlined_helpers=inlined)
     return t, spec
 
 
